@@ -88,6 +88,11 @@ let () =
         Printf.printf "H %d %d %d %d\n" (if M.is_initialized c then 1 else 0) pools g' bs'
       (* rows of the translated tables, answered by the model (to name the concrete row when tables_ok fails) *)
       | "TK" :: _ -> Printf.printf "TK %d %d %d\n" (iz (M.norm_pools true)) (iz (M.norm_gran (zi 0))) (iz M.max_block_size)
+      | "TA" :: g :: size :: _ ->
+        let c = { M.c_gran = cz_of_string g; c_pools = zi 1; c_bsize = zi 65536; c_pad = true; c_imm = false; c_var = M.fixed } in
+        (match snd (M.alloc c (M.init_state c) (cz_of_string size)) with
+         | M.RAlloc (M.Ok, _, _, _) -> print_endline "TA 0" | M.RAlloc (M.InvalidArgument, _, _, _) -> print_endline "TA 1"
+         | M.RAlloc (M.TooLarge, _, _, _) -> print_endline "TA 2" | _ -> print_endline "TA 9")
       | "TC" :: g :: bs :: multi :: _ ->
         Printf.printf "TC %d %d %d\n" (iz (M.norm_gran (cz_of_string g))) (iz (M.norm_bsize (zi 65536) (cz_of_string bs))) (iz (M.norm_pools (multi <> "0")))
       | "TP" :: g :: pools :: size :: _ ->
